@@ -6,7 +6,8 @@ from model import (dstr, strip, fact_holds, mentions_field, mentions_call, menti
                    const_value, walk)
 from rules import (guarded, calls_to, field_writes, who_may_write, who_may_call, full_range,
                    loops_over, every_iteration_passes, basename, origins, is_var, is_enum,
-                   lastname, dominated_by, reject_if, must_pass, reached_only_via, deep_resolve)
+                   lastname, dominated_by, reject_if, must_pass, reached_only_via, deep_resolve,
+                   header_iff_empty)
 
 ENTRY_FIELDS = ['BuildLog::LogEntry::start_time', 'BuildLog::LogEntry::end_time',
                 'BuildLog::LogEntry::mtime', 'BuildLog::LogEntry::command_hash']
@@ -186,7 +187,9 @@ def run(ctx):
                 ctx.inst('C08.TA1', f.where(e), 'the reader parses the header with the same kFileSignature')
     ctx.check('C08.TA1', nsig >= 4, 'BuildLog', 'header:signature-sites', load.loc,
               'writer(s) and reader use the kFileSignature constant (%d sites)' % nsig)
-    ctx.floor('C08.TA1', 12)
+    header_iff_empty(ctx, 'C08.TA1', prog.fn('BuildLog::OpenForWriteIfNeeded'),
+                     lambda x: x.get('name') == 'fprintf' and mentions_var(x.get('args'), 'kFileSignature'), 'BuildLog::log_file_')
+    ctx.floor('C08.TA1', 14)
 
     # ---- O2: last wins, whole record -----------------------------------------------------------
     R('C08.O2', 'O', 'when a record is applied (Load, RecordCommand), all four value fields of the '
